@@ -72,11 +72,36 @@ def generate(L):
     else:
         raise L.GenError("load_commit_metadata_batch: unexpected statements after the header tests in the line loop")
     kw_tree, kw_parent = L.unescape(mt.group(2)), L.unescape(mp.group(2))
+    # ---- the replay loops: recomputed note or remapped copy of the original?
+    payload = {}
+    for fn_name, var in (("rewrite_authorship_after_rebase_v2", "current_authorship_log"),
+                         ("rewrite_authorship_after_cherry_pick", "authorship_log")):
+        body = L.find_fn(src, fn_name, REL)
+        mm = re.findall(r"let\s+computed_note_has_payload\s*=\s*([^;]*);", body)
+        if len(mm) != 1:
+            raise L.GenError(f"{fn_name}: `let computed_note_has_payload = ...;` not found exactly once")
+        expr = re.sub(r"\s+", "", mm[0])
+        full = f"!{var}.attestations.is_empty()||!{var}.metadata.prompts.is_empty()"
+        if expr == full:
+            payload[fn_name] = True
+        elif expr == f"!{var}.attestations.is_empty()":
+            payload[fn_name] = False
+        else:
+            raise L.GenError(f"{fn_name}: computed_note_has_payload is neither `attestations || prompts` nor `attestations`")
+        k2 = body.find("let computed_note_has_payload")
+        tail = body[k2:]
+        if not re.search(r"let\s+authorship_json\s*=\s*if\s+computed_note_has_payload\s*\{", tail) or \
+                "remap_note_content_for_target_commit(raw_note, new_commit)" not in tail or \
+                f"{var}.serialize_to_string()" not in tail[:tail.find("remap_note_content_for_target_commit")]:
+            raise L.GenError(f"{fn_name}: the write-or-fall-back statement after computed_note_has_payload was not recognised")
     return "\n".join([
         f"Definition meta_kw_tree : list N := {L.coq_str(kw_tree)}.",
         f"Definition meta_kw_parent : list N := {L.coq_str(kw_parent)}.",
         "(* true: the line loop stops as soon as the tree and the first parent are known *)",
         f"Definition meta_early_exit : bool := {L.coq_bool(early)}.",
+        "(* true: a recomputed note with prompt records but no attestations is still written (not replaced by a copy) *)",
+        f"Definition replay_payload_counts_prompts_rebase : bool := {L.coq_bool(payload['rewrite_authorship_after_rebase_v2'])}.",
+        f"Definition replay_payload_counts_prompts_cherry : bool := {L.coq_bool(payload['rewrite_authorship_after_cherry_pick'])}.",
         f"Definition remap_marker : list N := {L.coq_str(field)}.",
         f"Definition remap_ws : list N := {L.coq_str(chars)}.",
         "(* true: the marker is searched only below the first divider line (repaired shape);",
